@@ -19,6 +19,10 @@ FP = os.path.join(common.VERIF, "contracts", "kernel_fingerprints.json")
 
 def list_units():
     return {"kernels": {"props": ["C04"], "tier": "quick", "doc": __doc__},
+            "kernels_frames": {"props": ["C07"], "tier": "quick", "doc": __doc__ + "\n(C07 variant: the kernels' FRAMES - read "
+                               "only the inputs, write only the requested output - are assumed contracts of the CBMC units; a "
+                               "changed C / assembly kernel file is searched by the C library family (ASan/UBSan, guard pages), "
+                               "a changed Rust kernel file by the platform family.)"},
             "rust_statics": {"props": ["C18"], "tier": "quick", "doc": run_rust_statics.__doc__},
             "c_cache_single_store": {"props": ["C18"], "tier": "quick", "doc": run_c_cache_single_store.__doc__},
             "c_pointer_casts": {"props": ["C07"], "tier": "quick", "doc": run_c_pointer_casts.__doc__},
@@ -542,6 +546,8 @@ def run_unit(name, tier="quick"):
         return run_rust_statics()
     if name == "c_cache_single_store":
         return run_c_cache_single_store()
+    if name not in ("kernels", "kernels_frames"):
+        raise KeyError(name)
     res = new_result("guard:" + name, "guard", level="other")
     fps = json.load(open(FP))
     changed, missing = [], []
@@ -577,5 +583,10 @@ def run_unit(name, tier="quick"):
         else:
             fo["variants"] = ["default", "prefer_intrinsics", "pure"]
         fo["families"] = ["platform", "xof", "oneshot"]
+        if name == "kernels_frames" and rel.startswith("c/"):
+            # memory-safety side: the C library family with the flavour that compiles this file first
+            fo["function"] = "blake3_hash_many"
+            fo["search"] = "c_api"
+            fo["variants"] = (["intrinsics", "asm", "portable"] if b.endswith(".c") else ["asm", "intrinsics", "portable"])
         res.setdefault("suspect", []).append(fo)
     return res
